@@ -547,12 +547,59 @@ C08_Footprint_Step ==
          /\ st.markets \subseteq st'.markets
     [] OTHER -> TRUE
 
+\* A successful role-, parameter- or attribute-changing message has the EFFECT it names.
+\* Without it "authorisation tracks role changes", "the basket's date criterion incl.
+\* governance updates of it", "allowed-chain list changes", "accepted parameter values"
+\* would be judged against a stored column that the update may not have written.
+RangeOf(q) == {q[i] : i \in DOMAIN q}
+FeeAsStored(f) == IF f.set /\ f.amt > 0 THEN f ELSE NoCoin
+C08_Effect_Step ==
+  ev'.ok =>
+  LET m == ev'.m
+      T == ev'.type
+  IN
+  CASE T = "UpdateClassAdmin"    -> HasClassId(st', m.class_id) /\ ClassById(st', m.class_id).admin = Acct(m.new_admin)
+    [] T = "UpdateClassMetadata" -> HasClassId(st', m.class_id) /\ ClassById(st', m.class_id).meta = m.meta
+    [] T = "UpdateClassIssuers"  ->
+         LET ck == ClassById(st, m.class_id).key IN
+         {r.a : r \in {x \in st'.issuers : x.ck = ck}}
+           = ({r.a : r \in {x \in st.issuers : x.ck = ck}} \ RangeOf(m.remove)) \cup RangeOf(m.add)
+    [] T = "UpdateProjectAdmin"    -> HasProjectId(st', m.project_id) /\ ProjectById(st', m.project_id).admin = Acct(m.new_admin)
+    [] T = "UpdateProjectMetadata" -> HasProjectId(st', m.project_id) /\ ProjectById(st', m.project_id).meta = m.meta
+    [] T = "UpdateBatchMetadata"   -> HasBatchDenom(st', m.batch_denom) /\ BatchByDenom(st', m.batch_denom).meta = m.meta
+    [] T = "SealBatch"             -> HasBatchDenom(st', m.batch_denom) /\ ~BatchByDenom(st', m.batch_denom).open
+    [] T = "UpdateCurator"         -> HasBasket(st', m.denom) /\ BasketByDenom(st', m.denom).curator = Acct(m.new_curator)
+    [] T = "UpdateDateCriteria"    -> HasBasket(st', m.denom) /\ BasketByDenom(st', m.denom).crit = m.crit
+    [] T = "BasketCreate" ->
+         /\ HasBasket(st', ev'.resp.basket_denom)
+         /\ LET k == BasketByDenom(st', ev'.resp.basket_denom) IN
+            /\ k.crit = m.crit /\ k.dar = m.dar /\ k.curator = m.curator /\ k.ct = m.ct /\ k.name = m.name
+            /\ {x.cid : x \in {y \in st'.bclasses : y.bid = k.id}} = RangeOf(m.classes)
+    [] T = "UpdateBasketFee"          -> st'.basketfee = FeeAsStored(m.fee)
+    [] T = "UpdateClassFee"           -> st'.classfee = FeeAsStored(m.fee)
+    [] T = "SetClassCreatorAllowlist" -> st'.allowlist = m.enabled
+    [] T = "GovSetFeeParams"          -> st'.feeparams = [buyer |-> m.buyer, seller |-> m.seller]
+    [] T = "AddCreditType" -> \E t \in st'.ctypes : t.abbr = m.abbr /\ t.name = m.name /\ t.unit = m.unit
+    [] T = "AddAllowedDenom" -> \E d \in st'.denoms : d.bank = m.bank /\ d.display = m.display /\ d.exp = m.exp
+    [] OTHER -> TRUE
+
 C08_SealedStaysSealed_Step ==
   \A b \in st.batches :
     ~b.open =>
       /\ \E q \in st'.batches : q.key = b.key /\ q.denom = b.denom /\ ~q.open /\ q.meta = b.meta
       /\ IssuedOf(gh', b.denom) = IssuedOf(gh, b.denom)
 
+\* the same clause under the properties whose text depends on it
+C11_CriteriaAsSet_Step == (ev'.type \in {"UpdateDateCriteria", "BasketCreate"}) => C08_Effect_Step
+C13_ChainsAsSet_Step   == (ev'.type \in {"AddAllowedBridgeChain", "RemoveAllowedBridgeChain"}) => C08_Footprint_Step
+C18_ParamsAsSet_Step   ==
+  (ev'.type \in {"UpdateBasketFee", "UpdateClassFee", "SetClassCreatorAllowlist", "GovSetFeeParams",
+                 "AddAllowedDenom", "RemoveAllowedDenom", "AddCreditType", "AddClassCreator", "RemoveClassCreator"})
+    => (C08_Effect_Step /\ C08_Footprint_Step)
+C11_CriteriaAsSet_Prop == [][C11_CriteriaAsSet_Step]_vars
+C13_ChainsAsSet_Prop   == [][C13_ChainsAsSet_Step]_vars
+C18_ParamsAsSet_Prop   == [][C18_ParamsAsSet_Step]_vars
+C08_Effect_Prop            == [][C08_Effect_Step]_vars
 C08_Authorised_Prop        == [][C08_Authorised_Step]_vars
 C08_Footprint_Prop         == [][C08_Footprint_Step]_vars
 C08_SealedStaysSealed_Prop == [][C08_SealedStaysSealed_Step]_vars
